@@ -226,9 +226,12 @@ ADDENDA = {
            'argument is not narrowed before it was bounded. Data statements ask for room in the code buffer before their '
            'argument loop stores into it, bulk fills compare with the buffer\'s current size, buffer sizes are computed '
            'in the wide integer type; a failed read of a record header does not return to the caller; values that own a '
-           'string buffer are copied, never assigned as structures; the line buffer is grown before #define expansion '
-           'lengthens it.',
-    'C04': ' Also: line bytes are written straight to the file only after the write-behind buffer was flushed.',
+           'string buffer are copied, never assigned as structures (and a duplicated symbol entry gets a fresh string); '
+           'the line buffer is grown before #define expansion lengthens it; relative seeks by file values go forward; a '
+           'growing index into a fixed local array is compared with its size; alink patches the record buffer only at '
+           'checked offsets.',
+    'C04': ' Also: line bytes are written straight to the file only after the write-behind buffer was flushed.'
+           ' A segment is marked used before its counter advances, also for lines that emit nothing.',
     'C05': ' Also: the measuring pass updates start/stop/granularity only for records the copy selects; the target offset of '
            'a record depends on the same lane parameters as the byte-lane filter; dimension check of address/byte arithmetic.'
            " The pre-fill buffer's last store before the fill loop is the fill value."
@@ -249,7 +252,8 @@ ADDENDA = {
            ' Translated strings are handled by length, never by C-string functions; the half-precision rounding decision reads all cut-off bits.'
            ' A cached program counter is not used after a call that can advance the counter.'
            ' Carry and borrow between word count and position inside the word come in pairs; the packing position of '
-           'string characters restarts for every string argument.',
+           'string characters restarts for every string argument. A static that takes over a per-call parameter is not '
+           'assigned under a one-time initialisation guard.',
     'C10': ' Also: STRUCT set-up touches only the struct pseudo segment; rounding of the program counter is done in the '
            'unsigned address type; ORG and PHASE hold an address operand in the address type; logical and physical addresses '
            'are not mixed; RESTORE actions are independent of each other. A cached program counter is not used after a '
@@ -266,19 +270,20 @@ ADDENDA = {
            'address behind the instruction; masks cover range-checked values.'
            ' 6502 branch distances are held in 16 bits (wrap at 64K). Overflow tests on displacement adjustments compare '
            'the operands the adjustment actually used; AVR wrap masks are derived from the word-address limit. 65xx: '
-           'zero-page shortening only without a size prefix.',
+           'zero-page shortening only without a size prefix. A byte put in front of encoded code moves the code up first.',
     'C15': ' Also: assembler and disassembler use the same page reference for 4004 JCN/ISZ. The disassembler prints labels, '
            'ORG and hex literals in the syntax the matching assembler accepts; address wrap uses a 2^n-1 mask and the '
            'next-address slots are read only where they were written. The image loaders append a record to a chunk only '
-           'where its address equals the chunk end.',
+           'where its address equals the chunk end. Rows of one instruction in the decoder tables agree in the control-flow column.',
     'C16': ' Also: a generator\'s per-line carrier state is copied only behind the non-empty-statement test. No string '
            'literal continues behind an embedded NUL and a divider set with the blank has the tab; the CR of a CR-LF pair '
            'is looked for in the collected line, not only in the last chunk read. No expression is evaluated while the '
-           'labels local to a macro expansion are switched off.',
+           'labels local to a macro expansion are switched off. "First blank or tab" compares the two positions.',
     'C17': ' Also: ChkIO() on report outputs stands under a failure test or after errno = 0, so that a report option cannot '
            'abort the assembly through a stale errno.'
            ' Formatted text that is handed back to the caller as a value does not depend on a report option; generated symbol names use only %d/%s and %d ignores -SPLITBYTE.'
-           ' Clears of code-affecting state between passes are not controlled by a report option.',
+           ' Clears of code-affecting state between passes are not controlled by a report option.'
+           ' Code is not built from buffer bytes nobody wrote (front insertion moves the code up).',
     'C18': ' Also: no generator consumes shared scratch only other targets assign; the target\'s SwitchFrom runs inside the '
            'end-of-pass phase before the error accounting is closed.'
            ' ParseCPUArgs() splits a private copy of the -cpu argument list; lists classified as emptied per pass have a must-kill check.'
@@ -289,7 +294,7 @@ ADDENDA = {
     'C20': ' Also: ReadLnCont() advances the returned line count once per physical line, terminated or not; restorer/constructor '
            'pairing of the position state. The iteration number of loop positions is normalised in one direction.',
     'C02': ' -Werror promotion is tested inside the emitter on every path to the warning count.'
-           ' The -E log is closed between source files only under a test of ErrorPath.',
+           ' The -E log is closed between source files only under a test of ErrorPath; -maxerrors is compared with the error count only.',
 }
 for _k, _v in ADDENDA.items():
     CLAIMS[_k]['text'] = CLAIMS[_k]['text'] + _v
